@@ -72,6 +72,14 @@ CHECKS.update({
    text=W+"Bursts of 2-8 overlapping update / peer / addNode calls and duplicate copies of one signed request from agents sharing hosts and a wallet (including two keep-alives of one client), interleaved at every store-operation boundary and at the in-transaction yield points of the badger driver (real optimistic conflicts). At quiescence: every balance holder's credit moved by what some one-at-a-time order of the acknowledged requests moves it (interval arithmetic over the charge), the credit sum is conserved, a nonce is honoured at most once, every Balance/Node handed out by a store (and every balance in a reply) is unchanged by later operations. A tenth of the runs is repeated in a -race build in which the scheduler's own hand-offs are hidden from ThreadSanitizer, so accesses the code itself leaves unordered are reported even though they were run one after the other.",
    note="Serialisability is checked on resulting balances and nonce decisions by interval arithmetic rather than by a general linearizability search; peer sets are kept fresh so that no eviction depends on the order. Inside one store call of the memory driver no interleaving is possible under the cooperative scheduler: removed locking there is the race build's job. Socket transport concurrency (gorilla) is covered by C17's race scenario, not here.",
    technique=TECH+"concurrent request bursts interleaved at store-op and in-transaction yield points; serial-order interval oracle, snapshot-immutability registry, race detector with masked hand-offs", design="4 C10"),
+ "C18": dict(level="exploration",
+   text="Real agent.Agent against a recording node and a scripted pool over 1-6 keep-alive rounds driven by the real ticker on the simulated clock and by forced updates: churning local peer sets, active/invalid lists as ids or enode URIs with/without addresses, loopback/unspecified hosts and differing ports, strict mode on/off, targets 0-6, pool errors at update or at the peer request, light/full, geth/parity. After every round the node calls must equal the reference reconciliation: un-trust + disconnect exactly the declared-invalid peers (plus, strict, local peers not listed under the same host), one peer request for exactly the shortfall of the node's own kind, ConnectPeer for every returned host, nothing at all after a failed keep-alive.",
+   note="Node and pool are stubs (ethnode.EthNode / pool.Pool interfaces); geth/parity RPC adapters are not run. Peers whose local or pool-side host is loopback/unspecified/empty are a don't-care in strict mode.",
+   technique=TECH+"multi-round agent/node/pool histories with injected pool errors vs a reference reconciliation", design="4 C18"),
+ "C20": dict(level="exploration",
+   text="Real agent.Agent lifecycle on the simulated clock: sequences of Start, Start-again, Stop, Wait (in separate tasks), forced updates, pool failure at connect or at the k-th keep-alive, intervals 1 s to 10 min: Start while running returns ErrAlreadyStarted and sends nothing, exactly one keep-alive per interval while running and none when stopped, Stop ends the loop and Wait returns, a failed Start leaves nothing running, the agent can be started again after Stop and after the loop died.",
+   note="The command-line bound on the update interval (agent.go) is checked by the L2 scenario when built; here the interval is set directly on the Agent. Stop is only called while the model says the loop runs (Stop blocks by design otherwise).",
+   technique=TECH+"lifecycle call sequences on a simulated clock; keep-alive cadence counted per simulated interval", design="4 C20"),
 })
 
 PENDING = {}  # property -> reason it is not claimed at this commit
